@@ -1,3 +1,158 @@
+import Cello.Own
 import Driver.Common
-/- driver for engine `own` — stub, replaced when the engine is built -/
-def main (_args : List String) : IO Unit := IO.println "O not-implemented"
+/- driver for engine `own` (C05): interprets the op file of harness/h_own.c on the ownership model and prints the
+   same `O` lines (see the header of harness/h_own.c for the format). -/
+open Cello.Own
+
+namespace OwnDrv
+
+/-- decimal number, optional leading `-`, at most 9 digits (same rule as `parse_int` in the harness) -/
+def parseInt (s : String) (allowNeg : Bool) : Option Int :=
+  let cs := s.toList
+  let (neg, ds) := match cs with
+    | '-' :: r => (true, r)
+    | _ => (false, cs)
+  if neg && !allowNeg then none
+  else if ds.isEmpty || ds.length > 9 || !ds.all Char.isDigit then none
+  else
+    let v : Nat := ds.foldl (fun a c => a * 10 + (c.toNat - '0'.toNat)) 0
+    some (if neg then -(v : Int) else v)
+
+def parseNat (s : String) : Option Nat := (parseInt s false).map Int.toNat
+
+def parseNats (ss : List String) : Option (List Nat) := ss.mapM parseNat
+
+def pairs : List Nat → List (Nat × Nat)
+  | a :: b :: r => (a, b) :: pairs r
+  | _ => []
+
+def parseOp (ws : List String) : Option Op :=
+  match ws with
+  | ["new", c, k] => do
+    let c ← parseNat c
+    let k ← match k with
+      | "A" => some CKind.arr | "L" => some .lst | "T" => some .tbl | "R" => some .tre | "B" => some .boxArr
+      | _ => none
+    pure (.new c k)
+  | "newv" :: c :: k :: ps => do
+    let c ← parseNat c
+    let k ← match k with | "A" => some SeqKind.array | "L" => some .list | _ => none
+    let ps ← parseNats ps
+    pure (.newSeq c k ps)
+  | "newm" :: c :: k :: ps => do
+    let c ← parseNat c
+    let k ← match k with | "T" => some MapKind.table | "R" => some .tree | _ => none
+    let ps ← parseNats ps
+    if ps.length % 2 != 0 then none else pure (.newMap c k (pairs ps))
+  | ["box", c, p] => do pure (.box (← parseNat c) (← parseNat p))
+  | ["push", c, p] => do pure (.push (← parseNat c) (← parseNat p))
+  | ["append", c, p] => do pure (.push (← parseNat c) (← parseNat p))
+  | ["pushat", c, i, p] => do pure (.pushAt (← parseNat c) (← parseInt i true) (← parseNat p))
+  | ["pop", c] => do pure (.pop (← parseNat c))
+  | ["popat", c, i] => do pure (.popAt (← parseNat c) (← parseInt i true))
+  | ["set", c, i, p] => do pure (.set (← parseNat c) (← parseInt i true) (← parseNat p))
+  | ["rem", c, p] => do pure (.rem (← parseNat c) (← parseNat p))
+  | ["resize", c, n] => do pure (.resize (← parseNat c) (← parseNat n))
+  | ["sort", c] => do pure (.sort (← parseNat c))
+  | ["concat", c, d] => do pure (.concat (← parseNat c) (← parseNat d))
+  | ["assign", c, d] => do pure (.assign (← parseNat c) (← parseNat d))
+  | ["copy", c, d] => do pure (.copy (← parseNat c) (← parseNat d))
+  | ["mset", c, k, v] => do pure (.mset (← parseNat c) (← parseNat k) (← parseNat v))
+  | ["mrem", c, k] => do pure (.mrem (← parseNat c) (← parseNat k))
+  | ["del", c] => do pure (.del (← parseNat c))
+  | ["bassign", c, d] => do pure (.bassign (← parseNat c) (← parseNat d))
+  | _ => none
+
+/-- element code of the dumps: 0 = zero-filled, 1 = Box pointing to a finalised object, pay+2 otherwise -/
+def code (w : World) (box : Bool) (t : Tok) : Nat :=
+  if t.id = 0 then 0 else if box && w.retiredLog.contains t.id then 1 else t.pay + 2
+
+def showCode (c : Nat) : String := if c = 0 then "_" else if c = 1 then "!" else toString (c - 2)
+
+def kindChar : Cont → Char
+  | .seq .array .probe _ => 'A'
+  | .seq .list _ _ => 'L'
+  | .seq .array .box _ => 'B'
+  | .map .table _ => 'T'
+  | .map .tree _ => 'R'
+  | .cell _ => 'X'
+
+def mix (h x : UInt64) : UInt64 := (h ^^^ x) * 1099511628211
+
+def digest (w : World) : UInt64 :=
+  w.objs.foldl (fun h cx =>
+    let (c, x) := cx
+    let h := mix h (UInt64.ofNat (c + 1))
+    let h := mix h (UInt64.ofNat (kindChar x).toNat)
+    let h := mix h (UInt64.ofNat x.len)
+    x.toks.foldl (fun h t => mix h (UInt64.ofNat (code w x.isBox t))) h) 1469598103934665603
+
+def longList : Nat := 48
+
+def showCont (w : World) (c : Nat) : String :=
+  match lookup w.objs c with
+  | none => s!" {c}:-"
+  | some x =>
+    let k := kindChar x
+    if x.toks.length > longList then
+      let h := x.toks.foldl (fun h t => mix h (UInt64.ofNat (code w x.isBox t))) 1469598103934665603
+      s!" {c}:{k}#{x.len}:{h.toNat}"
+    else
+    match x with
+    | .map _ kvs =>
+      let body := ",".intercalate (kvs.map (fun kv => showCode (code w false kv.1) ++ ":" ++ showCode (code w false kv.2)))
+      s!" {c}:{k}" ++ "{" ++ body ++ "}"
+    | _ =>
+      let body := ",".intercalate (x.toks.map (fun t => showCode (code w x.isBox t)))
+      s!" {c}:{k}[" ++ body ++ "]"
+
+def sortNat (xs : List Nat) : List Nat := (xs.toArray.qsort (· < ·)).toList
+
+def showPays (ts : List Tok) : String :=
+  let ps := sortNat (ts.map (·.pay))
+  if ps.length > longList then
+    let h := ps.foldl (fun h p => mix h (UInt64.ofNat p)) 1469598103934665603
+    s!"#{ps.length}:{h.toNat}"
+  else "[" ++ ",".intercalate (ps.map toString) ++ "]"
+
+def liveDelta (live : Nat) (o : Obs) : Nat :=
+  live + o.issued.length - (o.retired.filter (fun t => t.id != 0)).length
+
+def showObs (w : World) (live : Nat) (o : Obs) : String :=
+  if o.bad then "O bad-op" else
+  let ret := o.retired.filter (fun t => t.id != 0)
+  let rawd := (o.retired.filter (fun t => t.id == 0)).length
+  let touched := match o.touched with
+    | [a, b] => if a = b then [a] else [a, b]
+    | l => l
+  s!"O r={o.out.name} iss={showPays o.issued} ret={showPays ret} upd={showPays o.updated} rawd={rawd} live={live} dig={(digest w).toNat} |"
+    ++ String.join (touched.map (showCont w))
+
+end OwnDrv
+
+open OwnDrv in
+def main (args : List String) : IO Unit := do
+  let lines ← Driver.inputLines args
+  let mut w : World := {}
+  let mut nOps := 0
+  let mut nOut := 0
+  let mut live := 0
+  for l in lines do
+    if Driver.isSkippable l then continue
+    nOps := nOps + 1
+    match parseOp (Driver.words l) with
+    | none => IO.println "O bad-op"
+    | some op =>
+      if !inContract w op then nOut := nOut + 1
+      let (w', o) := step w op
+      live := liveDelta live o
+      IO.println (showObs w' live o)
+      w := w'
+  for op in delAllOps w do
+    let (w', o) := step w op
+    live := liveDelta live o
+    IO.println (showObs w' live o)
+    w := w'
+  IO.println s!"O end live={liveCount w}"
+  if live != liveCount w then IO.println s!"O model-inconsistent live counter {live} vs logs {liveCount w}"
+  IO.println s!"S ops={nOps} out-of-contract={nOut} tokens={w.next - 1}"
